@@ -199,6 +199,37 @@ mutual
     | .cons _ v rest => homog v && homogFields rest
 end
 
+/-! ### when does inference refuse a value? -/
+
+mutual
+  /-- the value holds no nil and, in every list, all items have the `TypeID()` of the first.  This is exactly the set of literals
+      `infer.Type` accepts (`infer_isSome_iff_typable`). -/
+  def typable : Lit → Bool
+    | .null => false
+    | .list xs => typableItems xs none
+    | .obj fs => typableFields fs
+    | _ => true
+  def typableItems : Lits → Option Tid → Bool
+    | .nil, _ => true
+    | .cons x rest, found =>
+      typable x &&
+      (match found with
+       | none => typableItems rest (litTid x)
+       | some f => (litTid x == some f) && typableItems rest (some f))
+  def typableFields : Fields → Bool
+    | .nil => true
+    | .cons _ v rest => typable v && typableFields rest
+  /-- the `TypeID()` of the type that would be inferred, read off the value's head constructor -/
+  def litTid : Lit → Option Tid
+    | .null => none
+    | .str _ => some .str
+    | .int _ _ _ => some .int
+    | .float => some .float
+    | .bool _ => some .bool
+    | .list _ => some .list
+    | .obj _ => some .obj
+end
+
 /-! ### canonical text (shared with the harness: `vharness infer` renders the Go schema the same way) -/
 
 mutual
